@@ -78,11 +78,17 @@ def all_names_resolvable(tree):
 def run_case(ctx, P, stream, idx):
     r = ctx.rng(stream, idx)
     root, vpy, purelib = SHARD["root"], SHARD["vpy"], SHARD["purelib"]
+    # where the exposed package lives: installed (site-packages of the venv) or a source checkout on PYTHONPATH
+    checkout = ctx.rng(stream, idx, "where-src").random() < 0.35
+    if checkout:
+        purelib = os.path.join(root, "case%d" % idx, "src")
     pkg = "pkg%d_%d" % (ctx.seed, idx)
     case_dir = os.path.join(root, "case%d" % idx)
     os.makedirs(case_dir)
     log = tempfile.mktemp(prefix="vcdd-c20-audit-")
     try:
+        if checkout:
+            os.makedirs(purelib)
         desc = pkggen.gen_package(r, purelib, pkg)
         sub = r.choice(desc["subpackages"])
         module = r.choice((pkg, sub, sub))
@@ -135,11 +141,13 @@ def run_case(ctx, P, stream, idx):
             for sb in black_sibs:  # one flag per entry, as documented ([--blacklist BLACKLIST])
                 argv += ["--blacklist", sb]
         cfg = {"module": module.replace(pkg, "PKG"), "emit": emit, "dry_run": dry, "recursive": recursive,
-               "sqlalchemy_submodule": sa_sub, "output": where, "output_pre_exists": pre_exists, "exclusion": excl, "target_module_name": target}
+               "sqlalchemy_submodule": sa_sub, "output": where, "output_pre_exists": pre_exists, "exclusion": excl, "target_module_name": target,
+               "package_location": "checkout on PYTHONPATH" if checkout else "site-packages"}
         src_snap = fsnap.snapshot(os.path.join(purelib, pkg))
         snap0 = fsnap.snapshot(root)
         # (the command runs under its own string-hash seed, as a user's invocation does; the harness under 0)
-        env = dict(os.environ, PYTHONPATH=REPO, PYTHONDONTWRITEBYTECODE="1", PYTHONHASHSEED=str(1 + (idx * 31) % 9973))
+        env = dict(os.environ, PYTHONPATH=REPO + (os.pathsep + purelib if checkout else ""), PYTHONDONTWRITEBYTECODE="1",
+                   PYTHONHASHSEED=str(1 + (idx * 31) % 9973))
         pr = subprocess.run(argv, cwd=case_dir, env=env, stdout=subprocess.PIPE, stderr=subprocess.PIPE, timeout=600)
         P.monitor("exmod.run")
         snap1 = fsnap.snapshot(root)
